@@ -728,7 +728,7 @@ class Runner:
                             what.append('client exit code %d' % rc)
                         if what:
                             viol.append('step %d (request %d, identical to stored request %d whose entry %s is still in the cache%s): %s'
-                                        % (si, tag, t0, entry_file, ', after %d restart(s)' % sum(1 for x in self.plan['steps'][:si] if x['op'] == 'restart'),
+                                        % (si, tag, t0, entry_file, ', after %d restart(s)' % sum(1 for x in self.plan['steps'][:si] if x['op'] in ('restart', 'flatten_mtimes')),
                                            '; '.join(what)))
                 if self.plan.get('idle_timeout') and not self.server_alive():
                     raise Inconclusive('the server exited while request %d was being observed' % tag)
